@@ -300,3 +300,34 @@ func H_C19_via(w int) {
 	}
 	vReach("end")
 }
+
+// H_C19_othertags: the values of headers that are not among the fingerprinted
+// strings (here: the To tag and a Contact parameter) do not influence the
+// signature - with and without a From tag (which == 1: From has no tag).
+func H_C19_othertags(which, w int) {
+	tv := vBytes(w)
+	for i := range tv {
+		c := tv[i]
+		vAssume(isAlnum(c) || c == '-' || c == '.' || c == '_' || c == '+')
+	}
+	from := "f:<sip:a>;tag=x-1\r\n"
+	if which == 1 {
+		from = "f:<sip:a>\r\n"
+	}
+	pre := c19Heads[0] + "v: SIP/2.0/UDP h;branch=z9hG4bKa1\r\n" + from + "To: <sip:b>;tag="
+	post := "\r\ni: ab\r\nCSeq: 1 INVITE\r\nm:<sip:c>;x="
+	end := "\r\n\r\n"
+	a := []byte(pre + "0" + post + "1" + end)
+	b := append([]byte(pre), tv...)
+	b = append(b, post...)
+	b = append(b, tv...)
+	b = append(b, end...)
+	var ma, mb PSIPMsg
+	ea := msgOf(a, &ma, nil)
+	eb := msgOf(b, &mb, nil)
+	vAssert("both-parse", ea == 0 && eb == 0)
+	sa, ra := GetMsgSig(&ma)
+	sb, rb := GetMsgSig(&mb)
+	vAssert("same-signature", ra == ErrHdrOk && rb == ErrHdrOk && sa == sb)
+	vReach("end")
+}
